@@ -61,7 +61,8 @@ def main():
     meta['checks'] = {}
     for c in checks:
       t0 = time.time()
-      e = dict(os.environ, VERIF_REPO=scratch)
+      e = dict(os.environ, VERIF_REPO=scratch,
+               VERIF_OUT_DIR=f'/tmp/seedout_{name}')
       rc = sh(f'{VERIF}/check {c} --tier quick', env=e, cwd=VERIF)
       viol = [l for l in rc.stdout.splitlines() if l.startswith('VIOLATION')]
       kinds = sorted(set(l.strip().split(':')[0] for l in rc.stdout.splitlines()
@@ -69,9 +70,8 @@ def main():
       meta['checks'][c] = {'exit': rc.returncode, 'violations': len(viol),
                            'kinds': kinds, 'wall_s': round(time.time() - t0, 1),
                            'tail': rc.stdout.strip().splitlines()[-1:]}
-      # evidence/replays written by a mutant run are not evidence: restore
-      sh(f'git -C {VERIF} checkout -- evidence/{c}.json')
-      shutil.rmtree(os.path.join(VERIF, 'replays', c), ignore_errors=True)
+      # evidence/replays of a mutant run go to a scratch dir, never to /verif
+      shutil.rmtree(f'/tmp/seedout_{name}', ignore_errors=True)
     meta['detected_by'] = [c for c, v in meta['checks'].items()
                            if v['exit'] == 1 and v['violations'] > 0]
   finally:
